@@ -61,6 +61,8 @@ def classify(spec):
                     cl.add("time_non_dyadic")
         if not t["entries"]:
             cl.add("empty_tier")
+        if t["type"] == "point" and len({e[0] for e in t["entries"]}) < len(t["entries"]):
+            cl.add("coinciding_points")
     return cl
 
 
@@ -74,10 +76,26 @@ def expected(spec, fmt, blanks, include_empty):
     return data
 
 
+def _in_memory_order(spec, tg):
+    """Points at one instant: the statement compares the reopened textgrid with the one in memory, so their
+    order is taken from the tier in memory (the same points - that is checked here - in whatever order it holds them)."""
+    out = dict(spec, tiers=[])
+    for t, tier in zip(spec["tiers"], tg.tiers):
+        times = [e[0] for e in t["entries"]]
+        if t["type"] == "point" and len(set(times)) < len(times):
+            mem = [list(e) for e in tier.entries]
+            if sorted(map(tuple, mem)) != sorted((float(e[0]), e[1]) for e in t["entries"]):
+                raise Violation("constructor-changed-entries", f"tier {t['name']!r}: {mem} from {t['entries']}")
+            t = dict(t, entries=mem)
+        out["tiers"].append(t)
+    return out
+
+
 def run_roundtrip(case):
     p = P()
     spec = case["tg"]
     tg = mk_tg(spec)
+    spec = _in_memory_order(spec, tg)
     clean = all((t["minT"], t["maxT"]) == (spec["minT"], spec["maxT"]) for t in spec["tiers"])
     has_explicit_empty = any(e[-1] == "" for t in spec["tiers"] for e in t["entries"])
     cl = classify(spec)
@@ -138,6 +156,14 @@ def _one_combo(tg, spec, fmt, blanks, ie, has_explicit_empty, clean=True, mil="n
 def cases(draw):
     clean = draw(st.integers(0, 5)) > 0
     tg = draw(gen.io_textgrid(clean=clean))
+    if draw(st.integers(0, 4)) == 0:
+        # several points at one instant, given in any order of their labels
+        for t in tg["tiers"]:
+            if t["type"] == "point" and t["entries"] and draw(st.booleans()):
+                k = draw(st.integers(0, len(t["entries"]) - 1))
+                extra = [t["entries"][k][0], draw(st.sampled_from(["a", "Z", "tone", "burst", t["entries"][k][1] + "x"]))]
+                if extra[1] != t["entries"][k][1]:
+                    t["entries"].insert(k + draw(st.integers(0, 1)), extra)
     # the default minimumIntervalLength (1e-8) is used where no interval or gap can be that short
     mil = "default" if gen.min_gap(tg) >= 1e-6 and draw(st.booleans()) else "none"
     return {"tg": tg, "mil": mil}
